@@ -2,13 +2,7 @@
 #![allow(clippy::all)]
 #![allow(dead_code)]
 
-mod alloc;
-#[macro_use]
-mod engine;
-mod doubles;
-mod parsers;
-mod props;
-mod util;
+use harness::{alloc, engine, props};
 
 use engine::runner::{install_panic_hook, RunCfg, Tier};
 
